@@ -35,11 +35,11 @@ var c08Junk = []string{"", "zz", "0", "\x00", "\xff\xfe\x80", "a\xff\xfe", "1\n1
 var c08JunkExpand = []string{"", "zz", "\x00", strings.Repeat("a", 255)} // junk whose successors are expanded further
 
 type c08Witness struct {
-	App    string   `json:"app"`
-	Cfg    int      `json:"config_variant"`
-	Mode   string   `json:"mode"`
-	Inputs qstrs    `json:"inputs"`
-	Kind   string   `json:"kind,omitempty"` // directed scenario name
+	App    string `json:"app"`
+	Cfg    int    `json:"config_variant"`
+	Mode   string `json:"mode"`
+	Inputs qstrs  `json:"inputs"`
+	Kind   string `json:"kind,omitempty"` // directed scenario name
 }
 
 // c08Invariants checks the session's internal consistency after a request.
